@@ -293,6 +293,12 @@ fn run_discipline(ctx: &Ctx, rep: &mut Report) {
     for s in g.sites.iter() {
         rep.nontrivial(crate::rng::fnv64(s.as_bytes()));
     }
+    rep.sample(J::obj(vec![
+        ("monitor", J::s("M1 lock-discipline: single-threaded drive, per-thread hold depth at every acquisition")),
+        ("acquisition_sites", J::Arr(g.sites.iter().map(|s| J::s(s.clone())).collect())),
+        ("lock_events", J::Int(g.events as i128)),
+        ("max_hold_depth", J::Int(g.max_depth as i128)),
+    ]));
 }
 
 // ------------------------------------------------------------------ M2
@@ -481,6 +487,18 @@ fn run_threads(ctx: &Ctx, rep: &mut Report, forced: bool, round: u64) -> bool {
     rep.add("m2.writer_ops", wlog.len() as u64 - 1);
     rep.count(if forced { "m2.forced_rounds" } else { "m2.stress_rounds" });
     rep.max("m2.max_readers", n_readers as u64);
+    if rep.samples.len() < 2 {
+        rep.sample(J::obj(vec![
+            ("monitor", J::s(if forced { "M2 forced schedule" } else { "M2 stress with random delays" })),
+            ("version", J::s(format!("{version:?}"))),
+            ("readers", J::Int(n_readers as i128)),
+            ("reader_calls_each", J::Int(reader_calls as i128)),
+            ("writer_ops", J::Int(writer_ops as i128)),
+            ("stream", J::s(target.clone())),
+            ("reader_observations_checked", J::Int(obs.len() as i128)),
+            ("writer_log_head", J::Arr(wlog.iter().take(6).map(|w| J::s(format!("ts {}..{} -> entry len {}", w.0, w.1, w.2))).collect())),
+        ]));
+    }
     {
         let g = global();
         rep.set_insert("m2.grant_order_prefixes", format!("{:016x}", g.grant_order_hash));
